@@ -27,6 +27,8 @@ Definition obind {A B} (o : outcome A) (f : A -> outcome B) : outcome B :=
 Definition is_ok {A} (o : outcome A) : bool := match o with Ok _ => true | _ => false end.
 Definition is_panic {A} (o : outcome A) : bool := match o with Panic => true | _ => false end.
 
+Inductive profile := Debug | Release.     (* overflow-checks on / off *)
+
 (* handlers::ProcessResult, in declaration order (the derived PartialOrd) *)
 Inductive presult := Ignored | Noop | Replaced | Rewritten | BadFormat | Error.
 
